@@ -30,7 +30,7 @@ RULE = (
 )
 ASSUMPTIONS = [
     "IR sets are generated (the vendor database is empty in this tree); keys follow the vendor grammar documented in ref/irset.py",
-    "non-toggle remote + power off + unsupported mode: either the 'off' code or the unsupported-mode error is accepted",
+    "an unsupported mode is refused for every request, also for a plain power-off on a non-toggle remote (the statement makes no exception)",
     "when no candidate key exists any exception is accepted; sets contain no bare mode keys beyond the candidate list",
     "temperatures are two-digit in generated keys (10..99)",
 ]
@@ -57,6 +57,12 @@ def set_params(tier):
                     oncovs = COVS if (tier == "thorough" and rid in ("ELEC7001", "ELEC7022")) else ([cov, ("base",), ("swing",), ("fan", "swing")] if tier == "thorough" else [cov, ("base",), ("fan", "swing")])
                     for oc in oncovs:
                         ps.append(dict(remote_id=rid, toggle=True, modes=modes, tmin=tmin, tmax=tmax, coverage=cov, on_coverage=oc))
+    # key coverage that is not uniform across temperatures and modes (sparse for odd temperatures, dry and fan)
+    for rid in ids[:2]:
+        for toggle in (False, True):
+            for cov, odd in ((("base", "fan", "swing"), ("base",)), (("base", "fan", "swing"), ("base", "fan")), (("base", "fan"), ("base", "fan", "swing")),
+                             (("fan", "swing"), ("fan",)), (("base",), ("base", "fan", "swing")), (("base", "swing"), ("fan",))):
+                ps.append(dict(remote_id=rid, toggle=toggle, modes=ALL_MODES, tmin=16, tmax=30, coverage=cov, on_coverage=cov if toggle else (), odd_coverage=odd))
     # sets without an 'off' entry / with fewer fan levels
     ps.append(dict(remote_id="ELEC7001", toggle=False, modes=ALL_MODES, tmin=16, tmax=30, coverage=("base", "fan", "swing"), on_coverage=(), with_off=False))
     ps.append(dict(remote_id="ELEC7001", toggle=False, modes=ALL_MODES, tmin=16, tmax=30, coverage=("fan", "swing"), on_coverage=(), fans=("auto", "high")))
@@ -212,6 +218,8 @@ def build(params):
     kw["on_coverage"] = tuple(kw["on_coverage"])
     if "fans" in kw:
         kw["fans"] = tuple(kw["fans"])
+    if kw.get("odd_coverage") is not None:
+        kw["odd_coverage"] = tuple(kw["odd_coverage"])
     ir_set = IR.make_set(params["remote_id"], **kw)
     return SwitcherBreezeRemote(json.loads(json.dumps(ir_set))), ir_set
 
